@@ -235,7 +235,104 @@ def tlc_validate(cwd, spec, cfg, traces, timeout=900, deque=True, fname="traces.
     if fl:
         # known-deviation disjuncts taken: list of [scenario index (1-based), tag]
         stats["flags"] = [(int(x[0]) - 1, x[1]) for x in json.loads(_unescape_tla(fl.group(1)))]
+    if os.environ.get("VERIF_BINDING_PROBE") and not _probing[0] and acc:
+        _binding_probe(cwd, spec, cfg, traces, acc, timeout, deque, xss)
     return acc, hw, stats
+
+
+# ---------------------------------------------------------------- binding probe
+# With VERIF_BINDING_PROBE=1 every trace validation is followed by a second one on corrupted copies of accepted
+# traces (one scalar field of one event altered per copy).  How many of the corrupted traces the specification
+# rejects, per field, goes into the evidence file: it shows which recorded fields the specification actually
+# constrains.  It never influences the verdict.
+_probing = [False]
+PROBE = {}
+
+
+def _corrupt(v, rnd):
+    if isinstance(v, bool):
+        return not v
+    if isinstance(v, int):
+        return v + 1 + rnd.randrange(3)
+    if isinstance(v, str):
+        return v + "~"
+    return None
+
+
+def _scalar_paths(e, prefix=()):
+    out = []
+    if isinstance(e, dict):
+        for k, v in e.items():
+            if k in ("step", "sc", "seed", "ms", "signms", "note", "err", "msg", "records"):
+                continue
+            if isinstance(v, (bool, int, str)):
+                out.append(prefix + (k,))
+            elif isinstance(v, (dict, list)):
+                out += _scalar_paths(v, prefix + (k,))
+    elif isinstance(e, list):
+        for i, v in enumerate(e):
+            if isinstance(v, (bool, int, str)):
+                out.append(prefix + (i,))
+            elif isinstance(v, (dict, list)):
+                out += _scalar_paths(v, prefix + (i,))
+    return out
+
+
+def _binding_probe(cwd, spec, cfg, traces, acc, timeout, deque, xss):
+    import copy, random
+    rnd = random.Random(12345)
+    picks = sorted(acc)
+    rnd.shuffle(picks)
+    picks = picks[:int(os.environ.get("VERIF_BINDING_PROBE_N", "40"))]
+    bad, what = [], []
+    for i in picks:
+        t = copy.deepcopy(traces[i])
+        if not t:
+            continue
+        for _ in range(10):
+            k = rnd.randrange(len(t))
+            paths = _scalar_paths(t[k])
+            if paths:
+                break
+        else:
+            continue
+        path = rnd.choice(paths)
+        o = t[k]
+        for q in path[:-1]:
+            o = o[q]
+        nv = _corrupt(o[path[-1]], rnd)
+        if nv is None:
+            continue
+        o[path[-1]] = nv
+        bad.append(t)
+        what.append(".".join(str(q) for q in path if not isinstance(q, int)) or "item")
+    if not bad:
+        return
+    _probing[0] = True
+    key = spec
+    rec = PROBE.setdefault(key, dict(corrupted=0, rejected=0, by_field={}))
+    try:
+        # a corrupted value may be outside what the specification can evaluate at all (TLC error): probe one by one then
+        try:
+            a2, _, _ = tlc_validate(cwd, spec, cfg, bad, timeout=timeout, deque=deque, xss=xss)
+            results = [(j not in a2) for j in range(len(bad))]
+        except Machinery:
+            results = []
+            for t in bad[:12]:
+                try:
+                    a2, _, _ = tlc_validate(cwd, spec, cfg, [t], timeout=120, deque=deque, xss=xss)
+                    results.append(0 not in a2)
+                except Machinery:
+                    results.append(True)   # not evaluable = not accepted
+            what = what[:len(results)]
+        for w, r in zip(what, results):
+            rec["corrupted"] += 1
+            rec["rejected"] += 1 if r else 0
+            f = rec["by_field"].setdefault(w, [0, 0])
+            f[0] += 1
+            f[1] += 1 if r else 0
+    finally:
+        _probing[0] = False
 
 
 def run_driver(binpath, scen_file, trace_file, extra=None, timeout=900, env=None, cwd=None):
@@ -321,6 +418,13 @@ class Verdict:
     def finish(self):
         wall = time.time() - self.t0
         self.cov["known_findings_hit"] = sorted(self.known_hit)
+        if PROBE:
+            self.cov["binding_probe"] = {k: dict(corrupted=v["corrupted"], rejected=v["rejected"],
+                                                 fields_never_rejected=sorted(f for f, c in v["by_field"].items() if c[1] == 0),
+                                                 by_field={f: "%d/%d" % (c[1], c[0]) for f, c in sorted(v["by_field"].items())}) for k, v in PROBE.items()}
+            for k, v in PROBE.items():
+                log("binding probe %s: %d of %d corrupted traces rejected; never rejected when altered: %s" % (
+                    k, v["rejected"], v["corrupted"], sorted(f for f, c in v["by_field"].items() if c[1] == 0)))
         ev = dict(property_id=self.prop, tier=self.tier, seed=self.seed, level=self.level,
                   coverage=self.cov, assumptions=self.assumptions, wall_s=round(wall, 2),
                   violations=len(self.violations))
